@@ -1,13 +1,15 @@
 
+val implb : bool -> bool -> bool
+
 val negb : bool -> bool
 
 type nat =
 | O
 | S of nat
 
-val fst : ('a1 * 'a2) -> 'a1
-
-val snd : ('a1 * 'a2) -> 'a2
+type ('a, 'b) sum =
+| Inl of 'a
+| Inr of 'b
 
 val length : 'a1 list -> nat
 
@@ -19,21 +21,6 @@ type comparison =
 | Gt
 
 val compOpp : comparison -> comparison
-
-val add : nat -> nat -> nat
-
-val sub : nat -> nat -> nat
-
-val eqb : bool -> bool -> bool
-
-module Nat :
- sig
-  val eqb : nat -> nat -> bool
-
-  val leb : nat -> nat -> bool
-
-  val ltb : nat -> nat -> bool
- end
 
 type positive =
 | XI of positive
@@ -51,14 +38,6 @@ type z =
 
 module Pos :
  sig
-  type mask =
-  | IsNul
-  | IsPos of positive
-  | IsNeg
- end
-
-module Coq_Pos :
- sig
   val succ : positive -> positive
 
   val add : positive -> positive -> positive
@@ -67,24 +46,7 @@ module Coq_Pos :
 
   val pred_double : positive -> positive
 
-  type mask = Pos.mask =
-  | IsNul
-  | IsPos of positive
-  | IsNeg
-
-  val succ_double_mask : mask -> mask
-
-  val double_mask : mask -> mask
-
-  val double_pred_mask : positive -> mask
-
-  val sub_mask : positive -> positive -> mask
-
-  val sub_mask_carry : positive -> positive -> mask
-
   val mul : positive -> positive -> positive
-
-  val size : positive -> positive
 
   val compare_cont : comparison -> positive -> positive -> comparison
 
@@ -92,59 +54,13 @@ module Coq_Pos :
 
   val eqb : positive -> positive -> bool
 
-  val iter_op : ('a1 -> 'a1 -> 'a1) -> positive -> 'a1 -> 'a1
-
-  val to_nat : positive -> nat
+  val of_succ_nat : nat -> positive
  end
 
 module N :
  sig
-  val succ_double : n -> n
-
-  val double : n -> n
-
   val add : n -> n -> n
-
-  val sub : n -> n -> n
-
-  val mul : n -> n -> n
-
-  val compare : n -> n -> comparison
-
-  val eqb : n -> n -> bool
-
-  val leb : n -> n -> bool
-
-  val ltb : n -> n -> bool
-
-  val log2 : n -> n
-
-  val pos_div_eucl : positive -> n -> n * n
-
-  val div_eucl : n -> n -> n * n
-
-  val div : n -> n -> n
-
-  val modulo : n -> n -> n
-
-  val to_nat : n -> nat
  end
-
-val rev : 'a1 list -> 'a1 list
-
-val concat : 'a1 list list -> 'a1 list
-
-val map : ('a1 -> 'a2) -> 'a1 list -> 'a2 list
-
-val flat_map : ('a1 -> 'a2 list) -> 'a1 list -> 'a2 list
-
-val forallb : ('a1 -> bool) -> 'a1 list -> bool
-
-val firstn : nat -> 'a1 list -> 'a1 list
-
-val skipn : nat -> 'a1 list -> 'a1 list
-
-val repeat : 'a1 -> nat -> 'a1 list
 
 module Z :
  sig
@@ -160,216 +76,151 @@ module Z :
 
   val opp : z -> z
 
+  val sub : z -> z -> z
+
   val mul : z -> z -> z
 
   val compare : z -> z -> comparison
 
   val leb : z -> z -> bool
 
+  val ltb : z -> z -> bool
+
   val eqb : z -> z -> bool
 
-  val of_N : n -> z
+  val of_nat : nat -> z
+
+  val pos_div_eucl : positive -> z -> z * z
+
+  val div_eucl : z -> z -> z * z
+
+  val modulo : z -> z -> z
  end
 
-type ascii =
-| Ascii of bool * bool * bool * bool * bool * bool * bool * bool
+val map : ('a1 -> 'a2) -> 'a1 list -> 'a2 list
 
-val eqb0 : ascii -> ascii -> bool
+val flat_map : ('a1 -> 'a2 list) -> 'a1 list -> 'a2 list
 
-type string =
-| EmptyString
-| String of ascii * string
+val existsb : ('a1 -> bool) -> 'a1 list -> bool
 
-val eqb1 : string -> string -> bool
+val forallb : ('a1 -> bool) -> 'a1 list -> bool
 
-type bytes = n list
+val filter : ('a1 -> bool) -> 'a1 list -> 'a1 list
 
-val sp : n
+type target =
+| TCredit
+| TDebit
+| TNone
 
-val zero : n
+val target_eqb : target -> target -> bool
 
-val bytes_eqb : bytes -> bytes -> bool
+type seg_arm = { sa_codes : z list; sa_target : target; sa_unknown : bool }
 
-val rune_error : n
+type scc_kind =
+| SSplit of z * z
+| SReuseCredit
+| SReuseDebit
+| SUnknown
 
-val cont : n -> bool
+type scc_arm = { sc_code : z; sc_kind : scc_kind }
 
-val seq_size : n -> nat
+val memz : z -> z list -> bool
 
-val second_ok : n -> n -> bool
+val classify : seg_arm list -> z -> target
 
-val chunks : bytes -> (n * bytes) list
+val digit_dir : z -> target
 
-val runes : bytes -> n list
+val entry_code : z list -> z -> bool
 
-val rune_count : bytes -> nat
+type entry = { e_code : z; e_amount : z; e_id : n; e_trace : n }
 
-val encode_rune : n -> bytes
+val goes : seg_arm list -> target -> entry -> bool
 
-val encode : n list -> bytes
+val sum_dir : seg_arm list -> target -> entry list -> z
 
-type seg =
-| SLit of bytes
-| SAlpha of string * nat
-| SNum of string * nat
-| SStr of string * nat
-| SRaw of string
-| SItoa of string
-| SCustom of string * string
-| SUnknown of string
+val all_dir : target -> entry list -> bool
 
-type cut = { c_lo : nat; c_hi : nat; c_field : string; c_conv : string list;
-             c_const : bytes option }
+type stables = { st_seg_std : seg_arm list; st_seg_iat : seg_arm list;
+                 st_seg_adv : seg_arm list; st_amt_std : seg_arm list;
+                 st_amt_iat : seg_arm list; st_amt_adv : seg_arm list;
+                 st_scc_std : scc_arm list; st_scc_iat : scc_arm list;
+                 st_codes : z list }
 
-val mkcut : nat -> nat -> string -> string list -> cut
+val scc_lookup : scc_arm list -> z -> scc_kind option
 
-val mkconst : string -> bytes -> cut
+type sbatch = { sb_adv : bool; sb_scc : z; sb_num : z; sb_ident : n;
+                sb_credit : z; sb_debit : z; sb_entries : entry list }
 
-type indexing =
-| IRune
-| IByte
+type sfile = { sf_origin : n; sf_dest : n; sf_batches : sbatch list;
+               sf_iat : sbatch list; sf_credit : z; sf_debit : z }
 
-type layout = { l_name : string; l_ix : indexing; l_segs : seg list;
-                l_cuts : cut list }
+val empty_file : sfile
 
-type value =
-| VS of bytes
-| VI of z
+val dir_of : bool -> target
 
-type recval = (string * value) list
+val fresh : seg_arm list -> bool -> z -> n -> entry list -> sbatch list
 
-val lookup : recval -> string -> value option
+val retrace : n -> entry list -> entry list
 
-val gets : recval -> string -> bytes
+val part : stables -> bool -> sbatch -> sbatch list
 
-val geti : recval -> string -> z
+val ipart : stables -> bool -> sbatch -> sbatch list
 
-val spaces : nat -> bytes
+val renumber : z -> sbatch list -> sbatch list
 
-val zeros : nat -> bytes
+val tot_credit : sbatch list -> z
 
-val is_space : n -> bool
+val tot_debit : sbatch list -> z
 
-val drop_space : (n * bytes) list -> (n * bytes) list
+val is_adv_file : sbatch list -> bool
 
-val trim : bytes -> bytes
+type verr =
+| VBatch
+| VTotals
+| VAscending
 
-val rune_prefix : nat -> bytes -> bytes
+type serr =
+| EInput of verr
+| EAdvOnly
+| EOutput of verr
 
-val alphaField : bytes -> nat -> bytes
+val create : n -> n -> sbatch list -> sbatch list -> sfile option
 
-val stringField : bytes -> nat -> bytes
+val dir_wf : stables -> sbatch -> bool
 
-val digits_fuel : nat -> n -> bytes -> bytes
+val ctl_wf : seg_arm list -> sbatch -> bool
 
-val digits : n -> bytes
+val batch_ok : stables -> sbatch -> bool
 
-val itoa : z -> bytes
+val ascending : z -> z list -> bool
 
-val numericField : z -> nat -> bytes
+val validate : stables -> sfile -> verr option
 
-val is_digit : n -> bool
+type sres =
+| SOk of sfile * sfile
+| SErr of serr
 
-val digits_val : bytes -> z -> z
+val finish :
+  stables -> n -> n -> sbatch list -> sbatch list -> (sfile, serr) sum
 
-val max_int64 : z
+val segment : stables -> sfile -> sres
 
-val min_int64 : z
+val seg_std_arms : seg_arm list
 
-val atoi : bytes -> z
+val seg_iat_arms : seg_arm list
 
-val atoi_opt : bytes -> z option
+val seg_adv_arms : seg_arm list
 
-val parseNumField : bytes -> z
+val amount_std_arms : seg_arm list
 
-val aUTOENROLL : bytes
+val amount_iat_arms : seg_arm list
 
-val eNR : bytes
+val amount_adv_arms : seg_arm list
 
-val render_custom : string -> recval -> bytes option
+val seg_standard_codes : z list
 
-val render_seg : recval -> seg -> bytes
+val seg_scc_std : scc_arm list
 
-val render : layout -> recval -> bytes
+val seg_scc_iat : scc_arm list
 
-val units : indexing -> bytes -> bytes list
-
-val sub0 : bytes list -> nat -> nat -> bytes
-
-val two : n -> n -> n
-
-val valid_date : bytes -> bool
-
-val valid_time : bytes -> bool
-
-val validateSettlementDate : bytes -> bytes
-
-val ten_zeros : bytes
-
-val trimRoutingNumberLeadingZero : bytes -> bytes
-
-val conv_str : string -> bytes -> bytes option
-
-val conv_chain : string list -> bytes -> bytes option
-
-val conv_value : string list -> bytes -> value option
-
-val parse_cut : bytes list -> cut -> (string * value) list
-
-val parse : layout -> bytes -> recval
-
-val overlay : recval -> recval -> recval
-
-val l_ADVBatchControl : layout
-
-val l_ADVEntryDetail : layout
-
-val l_ADVFileControl : layout
-
-val l_Addenda02 : layout
-
-val l_Addenda05 : layout
-
-val l_Addenda10 : layout
-
-val l_Addenda11 : layout
-
-val l_Addenda12 : layout
-
-val l_Addenda13 : layout
-
-val l_Addenda14 : layout
-
-val l_Addenda15 : layout
-
-val l_Addenda16 : layout
-
-val l_Addenda17 : layout
-
-val l_Addenda18 : layout
-
-val l_Addenda98 : layout
-
-val l_Addenda98Refused : layout
-
-val l_Addenda99 : layout
-
-val l_Addenda99Contested : layout
-
-val l_Addenda99Dishonored : layout
-
-val l_BatchControl : layout
-
-val l_BatchHeader : layout
-
-val l_EntryDetail : layout
-
-val l_FileControl : layout
-
-val l_FileHeader : layout
-
-val l_IATBatchHeader : layout
-
-val l_IATEntryDetail : layout
-
-val all_layouts : layout list
+val sT : stables
